@@ -1459,7 +1459,18 @@ class CInterp:
         h = self.externals.get(name)
         if h is not None:
             return h(self, st, args, n)
+        fn = self.tu.funcs.get(name)
+        if fn is not None and any(c.get("kind") == "CompoundStmt" for c in fn.get("inner", []) or []) and not _has_loop(fn):
+            # a loop-free helper defined in the same translation unit and not under contract (typically one introduced by a change):
+            # its real body is executed in place, in the caller's arithmetic mode
+            return self.run_function(name, st, args, {"overflow": self.mode})
         raise Undecided("call to %s at %s:%s has no contract (external not in the contract table)" % (name, self.func, line))
+
+
+def _has_loop(nd):
+    if nd.get("kind") in ("WhileStmt", "ForStmt", "DoStmt", "GotoStmt"):
+        return True
+    return any(_has_loop(c) for c in (nd.get("inner", []) or []) if c)
 
 
 class _NoMerge(Exception):
